@@ -38,7 +38,7 @@ man = {
         "guard": "verif_hooks",
         "enable": "cargo feature verif_hooks: the harness crate depends on conserve with default-features=false, features=[\"verif_hooks\"]; Transport::with_interceptor installs the interceptor",
         "baseline_off_cmd": "cd /repo && cargo test --workspace --no-fail-fast --offline",
-        "source_commits": ["a045f05"],
+        "source_commits": ["a045f05", "a8af276"],
         "add_only": True,
     },
     "engines": [
